@@ -1939,6 +1939,9 @@ FILES_MERKLE = [("Merkle", "packages/contract-utils/src/crypto/hashable.rs", ["c
                 ("Merkle", "packages/contract-utils/src/crypto/merkle.rs", ["verify", "verify_with_index"])]
 TYMAPS_MERKLE = {"packages/contract-utils/src/crypto/hashable.rs": {"H": "Bytes32", "S": "Hasher!", "Output": "Bytes32"},
                  "packages/contract-utils/src/crypto/merkle.rs": {"H": "Hasher!"}}
+STORE_FT = {"FungibleT": {"Allowance": (["AllowanceKey"], "AllowanceData", "temp")}}
+READS_FT = {"FungibleT": {"ledger_sequence": "u32", "min_temp_ttl": "u32", "max_ttl": "u32"}}
+FILES_FT = [("FungibleT", "packages/tokens/src/fungible/storage.rs", ["allowance_data", "allowance", "set_allowance", "spend_allowance"])]
 STORE_CTI = {"Topics": {"ClaimTopics": ([], "Vec<u32>"), "ClaimTopicIssuers": (["u32"], "Vec<Address>")}}
 FILES_CTI = [("Topics", "packages/tokens/src/rwa/claim_topics_and_issuers/mod.rs", []),
              ("Topics", "packages/tokens/src/rwa/claim_topics_and_issuers/storage.rs", ["get_claim_topics", "add_claim_topic"])]
@@ -2472,7 +2475,11 @@ def main():
                 sys.stdout.write(txt)
         sys.exit(rc)
     try:
-        if "--topics" in sys.argv:
+        if "--fungible-ttl" in sys.argv:
+            txt = translate(repo, FILES_FT, imports=("OZ.Model.RustSemHost",), reads=READS_FT, structs=STRUCTS_FUNGIBLE, store=STORE_FT,
+                            impl_types={"Base": "FungibleT"},
+                            rename_types={"AllowanceData": "FungibleT.AllowanceData", "AllowanceKey": "FungibleT.AllowanceKey"})
+        elif "--topics" in sys.argv:
             txt = translate(repo, FILES_CTI, reads={"Topics": {}}, store=STORE_CTI)
         elif "--role-transfer" in sys.argv:
             txt = translate(repo, FILES_RT, imports=("OZ.Model.RustSemHost",), reads=READS_RT, store=STORE_RT,
